@@ -163,5 +163,112 @@ def _variant(interp, lc, frame):
     return r
 
 
+def _call_named(interp, fn, frame, lc):
+    """evaluate a contract expression (a `defines` entry) over the current frame"""
+    import inspect
+    from .interp import Interp
+    env = _env(interp, frame, lc)
+    names = list(inspect.signature(fn).parameters)
+    missing = [n for n in names if n not in env]
+    if missing:
+        raise Unsupported('loop contract expression %s asks for unknown names %s' % (getattr(fn, '__name__', fn), missing))
+    sub = Interp(interp.ctx, interp.reg, modular=False)
+    sub.top_name = getattr(interp, 'top_name', '')
+    interp.ctx.no_fork += 1
+    try:
+        r = sub.call(fn, [env[n] for n in names])
+    finally:
+        interp.ctx.no_fork -= 1
+        interp.ctx.interp = interp
+    return r
+
+
+def _full_inv(interp, frame, lc):
+    """user invariant AND  v == defines[v](...)  for every defined variable"""
+    ctx = interp.ctx
+    conj = []
+    t = _call_inv(interp, lc.invariant, frame, lc)
+    conj.append(t)
+    for v, fn in (lc.defines or {}).items():
+        want = _call_named(interp, fn, frame, lc)
+        have = frame.lookup(v)
+        conj.append(ops.values_eq(ctx, have, want))
+    terms = []
+    for c in conj:
+        if c is False:
+            return False
+        if c is True:
+            continue
+        terms.append(c if not isinstance(c, (SBool,)) else c.t)
+    if not terms:
+        return True
+    return z3.And(*terms) if len(terms) > 1 else terms[0]
+
+
 def for_with_invariant(interp, node, frame, lc, key, it):
-    raise Unsupported('for-loop invariants are not implemented; use an index-based specification')
+    """`for x in <list of symbolic length>` with an inductive invariant over the ghost index (number of elements processed).
+
+    inv.init at index 0; then every variable assigned in the body is havocked - except the variables the contract *defines* as an
+    expression of the index and of loop-invariant values, which are bound to that expression (this is `assume v == expr` done by
+    substitution, so the remaining obligations are structural) - and the user invariant is assumed.  Body path: 0 <= index < len,
+    x = element number index (fields are uninterpreted functions of the position), one execution of the body, index + 1,
+    obligation inv.preserve, cut.  Exit path: index = len, execution continues after the loop.  Termination: a for loop over a list
+    that the body does not modify terminates (the body must not assign the list: checked syntactically on the iterated name)."""
+    from .interp import _Break, _Continue, CutPath
+    ctx = interp.ctx
+    if not isinstance(it, SList):
+        return interp.exec_for_plain(node, frame, it)
+    if it.tail or it.taken:
+        raise Unsupported('for-loop invariant over a partially materialised list')
+    if node.orelse:
+        raise Unsupported('for ... else with an invariant')
+    name = '%s#loop%d' % (key[0], key[1])
+    kname = lc.index or 'k'
+    n = it.n
+    frame.locals[kname] = 0
+    for g, init in lc.ghost.items():
+        if g not in frame.locals:
+            frame.locals[g] = interp.call(init, []) if callable(init) else init
+    ctx.oblige(name + '.inv.init', 'inv-init', _full_inv(interp, frame, lc), {'line': node.lineno})
+    mod = (assigned_names(node.body) | set(lc.modifies) | set(lc.ghost)) - {kname}
+    if isinstance(node.target, ast.Name):
+        mod.discard(node.target.id)
+    d = ctx.choose([('body', None), ('exit', None)])
+    if d == 1:
+        kt = n if not isinstance(n, int) else z3.IntVal(n)
+        frame.locals[kname] = wrap_int_(kt)
+    else:
+        kf = ctx.fresh_int(kname + '@loop')
+        ctx.assume(z3.And(kf >= 0, kf < (n if not isinstance(n, int) else z3.IntVal(n))))
+        frame.locals[kname] = SInt(kf)
+    for v in sorted(mod):
+        if '.' in v or v in (lc.defines or {}):
+            continue
+        try:
+            cur = frame.lookup(v)
+        except PyRaise:
+            continue
+        ty = lc.havoc_types.get(v)
+        frame.locals[v] = ty.fresh(ctx, v + '@loop') if ty is not None else havoc_like(ctx, cur, v + '@loop')
+    for v, fn in (lc.defines or {}).items():
+        frame.locals[v] = _call_named(interp, fn, frame, lc)
+    ctx.assume(_call_inv(interp, lc.invariant, frame, lc))
+    if d == 1:
+        return
+    n0 = z3.Int('len_' + it.rid)
+    pos = int_term(frame.locals[kname])
+    elem = it.elem.from_prefix(ctx, it.rid, z3.simplify(n0 - pos))
+    interp.assign(node.target, elem, frame)
+    try:
+        interp.exec_block(node.body, frame)
+    except _Break:
+        raise Unsupported('break inside a for loop with an invariant')
+    except _Continue:
+        pass
+    frame.locals[kname] = wrap_int_(z3.simplify(pos + 1))
+    ctx.oblige(name + '.inv.preserve', 'inv-preserve', _full_inv(interp, frame, lc), {'line': node.lineno})
+    raise CutPath()
+
+
+def wrap_int_(t):
+    return ops.wrap_int(t)
